@@ -71,13 +71,38 @@ func anyID(v any) string {
 		return f64id(x)
 	case []int:
 		return sliceID(x)
+	case int:
+		return "int:" + strconv.Itoa(x)
+	case int64:
+		return "int64:" + strconv.FormatInt(x, 10)
+	case string:
+		return "string:" + x
+	case struct{}:
+		return "struct{}"
+	case *int:
+		return "*int:" + ptrID(unsafe.Pointer(x))
 	default:
 		return fmt.Sprintf("%T:%v", v, v)
 	}
 }
 
+func ptrID(p unsafe.Pointer) string { return "0x" + strconv.FormatUint(uint64(uintptr(p)), 16) }
+
 func sliceID(x []int) string {
-	return fmt.Sprintf("[]int:%v:nil=%v:cap=%d:%p", x, x == nil, cap(x), unsafe.SliceData(x))
+	b := []byte("[]int[")
+	for _, v := range x {
+		b = strconv.AppendInt(b, int64(v), 10)
+		b = append(b, ' ')
+	}
+	if x == nil {
+		b = append(b, "](nil)"...)
+	} else {
+		b = append(b, "]@"...)
+		b = append(b, ptrID(unsafe.Pointer(unsafe.SliceData(x)))...)
+		b = append(b, "/cap"...)
+		b = strconv.AppendInt(b, int64(cap(x)), 10)
+	}
+	return string(b)
 }
 
 // typeNames in a fixed order, with the size of each domain.
@@ -106,7 +131,7 @@ func domStruct() dom[rec] {
 		vals:  []rec{{0, "", 0}, {0, "", nz}, {1, "", 0}, {0, "x", 0}, {1, "x", 1}, {-1, "x", 1}},
 		class: []int{0, 0, 1, 2, 3, 4},
 		id: func(r rec) string {
-			return fmt.Sprintf("%d/%q/%x", r.A, r.B, math.Float32bits(r.F))
+			return strconv.Itoa(r.A) + "/" + r.B + "/" + strconv.FormatUint(uint64(math.Float32bits(r.F)), 16)
 		}, poison: rec{-99, "poison", 0}, scribble: rec{7777, "scribble", 1},
 	}
 }
@@ -117,7 +142,7 @@ func domArray() dom[[2]float32] {
 		vals:  [][2]float32{{0, 1}, {nz, 1}, {1, 0}, {1, nz}, {1, 1}, {0, 0}},
 		class: []int{0, 0, 1, 1, 2, 3},
 		id: func(a [2]float32) string {
-			return fmt.Sprintf("%x/%x", math.Float32bits(a[0]), math.Float32bits(a[1]))
+			return strconv.FormatUint(uint64(math.Float32bits(a[0])), 16) + "/" + strconv.FormatUint(uint64(math.Float32bits(a[1])), 16)
 		}, poison: [2]float32{-99, -99}, scribble: [2]float32{7777, 7777},
 	}
 }
@@ -131,7 +156,7 @@ func domPointer() dom[*int] {
 			if p == nil {
 				return "nil"
 			}
-			return fmt.Sprintf("%p->%d", p, *p)
+			return ptrID(unsafe.Pointer(p)) + "->" + strconv.Itoa(*p)
 		}, poison: mk(-99), scribble: mk(7777),
 	}
 }
@@ -248,7 +273,7 @@ func newState[E any](c TCase, d dom[E]) *tstate[E] {
 	t.snap = t.ids(t.back)
 	var zero E
 	t.zeroE = d.id(zero)
-	t.desc = fmt.Sprintf("%s s=%v (identities %v, indices into the domain %v) spare=%d", c.Type, t.snap[:t.n], t.idx, t.domIDs(), len(t.back)-t.n)
+	t.desc = fmt.Sprintf("%s s=%v (= domain values number %v; domain: %v) spare=%d", c.Type, t.snap[:t.n], t.idx, t.domIDs(), len(t.back)-t.n)
 	return t
 }
 
@@ -1069,7 +1094,7 @@ var specTypes = pbt.Register(&pbt.Spec[TCase]{
 		return TCase{Type: ty, S: s, Set: set, M: rapid.IntRange(1, 4).Draw(t, "m"), J: rapid.IntRange(0, len(s)+1).Draw(t, "j"),
 			Spare: rapid.IntRange(0, 3).Draw(t, "spare"), Nil: rapid.Bool().Draw(t, "nil")}
 	},
-	Run: RunTyped, Quick: 6000, Thorough: 40000,
+	Run: RunTyped, Quick: 5000, Thorough: 40000,
 })
 
 func TestC14Types(t *testing.T) { pbt.Check(t, specTypes) }
